@@ -104,6 +104,9 @@ def c12(tier):
     mt.run(P, C)
     mt.mt9(P, C)
     mt.mt10(P, C)
+    # no state outside the job structures is shared between the workers
+    selftest.run(P, C, ('re1',))
+    dp.re1(P, C)
     C.extra["units"] = sorted(P.units.keys())
     return C.finish()
 
@@ -201,6 +204,8 @@ def c07(tier):
     # 'on every table that a read returns, lookup terminates and is memory-safe': the reader admits repeated knots, on which the bisection
     # alone neither stays inside [order, naxes-1] nor terminates at the last knot — the range short-cuts of searchcenters are what bounds it
     kb.sc123(P, C)
+    # ... and the gradient's lane budget: an 8-dimensional table loads, its gradient must be refused, not evaluated in 8 lanes
+    kb.kb3(P, C)
     return C.finish()
 
 
@@ -263,6 +268,7 @@ def c05(tier):
     kb.kb8(P, C)
     # 'trip no internal assertion': every assert on the evaluation path is one of the discharged kinds
     kb.as1(P, C)
+    dp.cl10(P, C)
     kb.sc4(P, C)
     # which core reads centers[D]/order[D]/strides[D] is decided by the dispatch table
     dp.dp(P, C)
@@ -307,6 +313,9 @@ def c03(tier):
     dp.dp(P, C)
     dp.dp(P, C, variant="driver-noevaltmpl")
     dp.dp7(P, C)
+    # the paths agree on every thread: none of them keeps scratch between calls
+    selftest.run(P, C, ('re1',))
+    dp.re1(P, C)
     n = dp.cl1(P, C)
     dp.cl2(P, C)
     cw.cw5(P, C)
@@ -371,6 +380,7 @@ def c10(tier):
     sp.sp2(P, C)
     C.extra["units"] = sorted(P.units.keys())
     sp.sp3(P, C)
+    sp.sp5(P, C)
     sp.mm1(P, C)
     # the monotonic fit forms F and R through the same slicemultiply / flatten index arithmetic
     gw.iw1(P, C)
@@ -403,6 +413,7 @@ def c11(tier):
     C.extra["not_decided"] = ["KKT conditions", "termination", "nnls_lawson_hanson", "nnls_normal_block", "nnls_normal_block_updown"]
     sp.sp3(P, C)
     sp.sp4(P, C)
+    sp.sp5(P, C)
     return C.finish()
 
 
@@ -477,6 +488,9 @@ def c06(tier):
     fs.fs7(P, C)
     fs.fs8(P, C)
     fs.fs10(P, C)
+    # what the writer writes the reader must accept: the validations may not be stricter than well-formedness
+    vg.vg2(P, C, exact=True)
+    fs.fs12(P, C)
     kb.kb8(P, C)
     # legacy files (no EXTENTS / PERIOD): a failed HDU move must keep its status until tested
     sm.sm6(P, C)
@@ -531,6 +545,7 @@ def c09(tier):
     # the data term: the basis matrix of each dimension (GW-4 treats bsplinebasis as given)
     ge.ge3(P, C)
     gw.iw1(P, C)
+    ge.gw8(P, C)
     C.extra["units"] = sorted(P.units.keys())
     C.extra["not_decided"] = ["optimality", "polynomial reproduction", "index arithmetic of box/slicemultiply/kronecker_product", "divided_diffs formula"]
     return C.finish()
@@ -559,8 +574,10 @@ def c01(tier):
     dp.cl1(P, C)
     dp.dp(P, C)
     # 'both precisions': the double instantiations keep every intermediate in double
-    selftest.run(P, C, ('pr1',))
+    selftest.run(P, C, ('pr1', 're1'))
     dp.pr1(P, C)
+    # 'for every point': also when several threads evaluate at once — no scratch shared between calls
+    dp.re1(P, C)
     C.extra["units"] = sorted(P.units.keys())
     C.extra["not_decided"] = ["the de Boor recurrence itself", "rounding", "the coefficient walk's index arithmetic beyond clone agreement"]
     return C.finish()
